@@ -26,7 +26,7 @@ pub fn run(ctx: &Ctx, out: &mut Out) {
     for i in 0..nprog {
         let mut rng = ctx.rng(0, i as u64);
         let coinductive = rng.chance(1, 5);
-        let mut pg = ProgGen { rng: &mut rng, cfg: ProgCfg { coinductive, ..ProgCfg::default() } };
+        let mut pg = ProgGen { rng: &mut rng, cfg: ProgCfg { coinductive, growing: false, ..ProgCfg::default() } };
         let prog = pg.program();
         let goals: Vec<String> = (0..6)
             .map(|k| if k < 5 { goal_text(&pg.exists_goal_from_impl(&prog)) } else { goal_text(&pg.exists_goal(&prog, 2)) })
